@@ -5,12 +5,28 @@ from props._util import rng_for, run_cases
 
 LEVEL = "other"
 DEDUCTIVE = [{"module": "rnapolis.common", "sidecar": "contracts.common_c",
-              "targets": ["BpSeq.sequence", "BpSeq.__stems_entries", "lemma:strands_apart",
+              "targets": ["BpSeq.sequence", "BpSeq.__stems_entries", "BpSeq.__regions", "lemma:strands_apart",
                           "DotBracket.__post_init__", "DotBracket.__post_init__@painted", "DotBracket.from_string",
                           "DotBracket.from_string@painted", "BpSeq.__make_dot_bracket", "BpSeq.fcfs"]}]
 TRUSTED = ["z3 5.1.0 / cvc5 1.0.3", "pyvc encoding of Python semantics (DESIGN 2.3)", "CPython 3.12"]
-ASSUMPTIONS = []
-EXPLANATION = "see DESIGN.md 4/C01"
+ASSUMPTIONS = [
+    "Entry.sequence is one character (field declared `char` in the sidecar): BPSEQ sequences are one letter per entry",
+    "FC (first-come-first-served level function) and levels30 ('needs at most 30 levels', the property's quantifier) are introduced by characteristic properties (definitional lemmas FC_definition / levels30_definition), not proved to exist by SMT",
+    "composition across calls (the stems seen by fcfs are the stems seen by __regions) relies on cached_property: one evaluation per object",
+    "the MILP encoder (dot_bracket / convert_to_dot_bracket) and all_dot_brackets reach __make_dot_bracket through their own contracts (C13/C02, C16); where those are not proved the members are covered by the bounded part only",
+]
+EXPLANATION = (
+    "Deductive (all inputs, no bound on N, on the number of stems or on nesting): BpSeq.__stems_entries returns exactly the maximal runs of "
+    "stacked 5'->3' pairs in 5' order and every 5'->3' pair lies in one of them (ghost inverse map GS); BpSeq.__make_dot_bracket, for regions that are "
+    "those stems and ANY proper level assignment below 30, writes a text of the structure's length and sequence that carries OPEN/CLOSE[level] on the two "
+    "strands of every stem and '.' elsewhere (ghost inverse strand map G), on which the real decoder DotBracket.__post_init__ never pops an empty stack "
+    "and returns exactly the structure's pairs (clause `lossless`: every decoded pair is a pair of the entries, listed by increasing 3' position, and no 3' "
+    "partner is left out) - this is 'balanced, decodes to exactly the base pairs, nothing lost, nothing invented, no two crossing stems on one bracket type' "
+    "for every encoder that calls it with a proper assignment; BpSeq.fcfs computes the first-come-first-served levels (orders == FC), which are proper, hence "
+    "its result is lossless. The decoder's general contract (any text): pairs are distinct ordered positions, IndexError only on unbalanced text. "
+    "Lemma strands_apart (strands of different stems of a valid structure are disjoint intervals) is proved by SMT with explicit witnesses. "
+    "Bounded (stand-in, not counted as proved): optimal / all-dot-brackets members end to end, the converse direction (dot-bracket -> BPSEQ -> dot-bracket) "
+    "and BpSeq.from_string/__str__ on enumerated pairings and random knotted structures.")
 
 
 def knotted(p):
